@@ -69,16 +69,18 @@ MIN_EVENTS = {
               'usb_chunks': 700000, 'oracle_evals': 8000000, 'agree_evals': 500000,
               'exhaustive_chunkings': 80000, 'huge_streams': 50, 'truncated_streams': 3000,
               'invalid_injections': 7000, 'invalid_reported': 7000, 'invalid_reported_by_reader': 2400,
-              'usbsrc_packets': 4000,
+              'usbsrc_packets': 4000, 'usbsrc_transfers': 5000, 'usbsrc_empty_iso_packets': 800,
               'server_tcp_cuts': 120, 'server_unix_cuts': 120, 'server_ws_cuts': 90,
-              'server_packets_seen': 1000},
+              'server_packets_seen': 1000, 'source_sink_reattached_mid_packet': 20000,
+              'server_clients_reset_with_unread_data': 60},
     'thorough': {'parser_chunks': 20000000, 'reader_packets': 30000000, 'areader_chunks': 20000000,
                  'usb_chunks': 15000000, 'oracle_evals': 150000000, 'agree_evals': 10000000,
                  'exhaustive_chunkings': 400000, 'huge_streams': 2000, 'truncated_streams': 100000,
                  'invalid_injections': 150000, 'invalid_reported': 150000, 'invalid_reported_by_reader': 50000,
-                 'usbsrc_packets': 100000,
+                 'usbsrc_packets': 100000, 'usbsrc_transfers': 100000, 'usbsrc_empty_iso_packets': 15000,
                  'server_tcp_cuts': 1200, 'server_unix_cuts': 1200, 'server_ws_cuts': 1200,
-                 'server_packets_seen': 12000},
+                 'server_packets_seen': 12000, 'source_sink_reattached_mid_packet': 400000,
+                 'server_clients_reset_with_unread_data': 600},
 }
 CASE_TIMEOUT = 600
 SOCKET_WAIT = 60.0          # wall seconds for one counted socket event; expiry => inconclusive
@@ -115,7 +117,7 @@ def plan(tier, seed):
     nsrv = 2 if q else 24
     for kind in ('tcp', 'unix', 'ws'):
         for i in range(nsrv):
-            for style in (('half-close', 'close', 'abort') if kind != 'ws' else ('close', 'abort')):
+            for style in (('half-close', 'close', 'abort', 'reset-unread') if kind != 'ws' else ('close', 'abort')):
                 cases.append({'kind': 'server', 'transport': kind, 'style': style,
                               'seed': base + 17000 + i, 'chain': False})
         for i in range(2 if q else 16):
@@ -353,6 +355,47 @@ def drive_parser(r: R, s: Stream, family, cuts):
     return sink.packets
 
 
+class Forward:
+    """Sink that appends to a shared list (the packet order across sink changes is what counts)."""
+
+    def __init__(self, out):
+        self.out = out
+
+    def on_packet(self, p):
+        self.out.append(p)
+
+
+def drive_source(r: R, rng, s: Stream, family, cuts):
+    """The parser as transports own it: a ParserSource fed through `source.parser`, whose sink is
+    attached before the first byte and attached again (a bridge or a second Host taking over the
+    transport) at 1-2 chunk boundaries, which may fall inside a packet."""
+    from bumble.transport.common import ParserSource
+
+    out = []
+    src = ParserSource()
+    src.set_packet_sink(Forward(out))
+    chunks = H.split_at(s.data, cuts)
+    resink = set(rng.sample(range(1, len(chunks)), min(len(chunks) - 1, rng.choice([1, 1, 2])))) if len(chunks) > 1 else set()
+    st = Steps(r, 'source-resink', s, family, cuts)
+    fed = 0
+    for i, ch in enumerate(chunks):
+        if i in resink:
+            src.set_packet_sink(Forward(out))
+            r.ev('source_sink_reattached')
+            if fed not in s.bounds:
+                r.ev('source_sink_reattached_mid_packet')
+        try:
+            src.parser.feed_data(ch)
+        except Exception as e:
+            st.raised(e, fed, out, 'source.parser.feed_data')
+            return None
+        fed += len(ch)
+        if not st.after(fed, out):
+            return None
+    st.final(out)
+    return out
+
+
 class ShortRaw(io.RawIOBase):
     """Raw byte source that hands out at most the rest of the current chunk per call."""
 
@@ -579,6 +622,8 @@ async def frame_stream(r: R, rng, s: Stream, **kw):
         a = drive_parser(r, s, family, cuts)
         b = drive_reader(r, s, family, cuts, rng.choice([1, 2, 3, 7, 16, 255, 256, 4096, 8192]))
         c = await drive_areader(r, s, family, cuts)
+        if cuts and n % 4 == 1:
+            drive_source(r, rng, s, family, cuts)
         r.ev('chunkings')
         if a is not None and b is not None and c is not None:
             r.ev('agree_evals')
@@ -884,6 +929,44 @@ async def invalid_case(case, r: R):
 # =============================================================================
 # UsbPacketSource without hardware
 # =============================================================================
+class FakeTransfer:
+    """What UsbPacketSource.transfer_callback reads from a usb1 transfer."""
+
+    def __init__(self, rng, ptype, data, r):
+        import usb1
+        self.ptype, self.data = ptype, bytes(data)
+        self.status = usb1.TRANSFER_COMPLETED
+        self.pad = bytes(rng.getrandbits(8) for _ in range(rng.choice([0, 0, 3, 64])))
+        self.iso = []
+        if ptype == H.SCO:
+            cuts = sorted(rng.randint(0, len(self.data)) for _ in range(rng.choice([0, 1, 2, 5])))
+            for piece in H.split_at(self.data, cuts):
+                while rng.random() < 0.3:
+                    self.iso.append((0, b''))
+                    r.ev('usbsrc_empty_iso_packets')
+                self.iso.append((0, piece))
+            while rng.random() < 0.3:
+                self.iso.append((0, b''))
+
+    def getUserData(self):
+        return self.ptype
+
+    def getStatus(self):
+        return self.status
+
+    def getActualLength(self):
+        return len(self.data)
+
+    def getBuffer(self):
+        return bytearray(self.data + self.pad)
+
+    def iterISO(self):
+        return iter(self.iso)
+
+    def submit(self):
+        pass
+
+
 async def usbsrc_case(case, r: R):
     from bumble.transport import usb
 
@@ -914,8 +997,16 @@ async def usbsrc_case(case, r: R):
         fed = {t: 0 for t in per}
         ubounds = {t: H.bounds_of([p[1:] for p in per[t].packets]) for t in per}
         failed = False
+        via_callback = rng.random() < 0.6
         for t, ch in order:
-            src.splitters[t].feed(ch)
+            if via_callback:
+                # the way libusb hands data over: a completed transfer; interrupt/bulk transfers carry
+                # getActualLength() bytes of a larger buffer, isochronous ones a list of ISO packets, any
+                # of which may be empty (a frame in which the controller had nothing to send)
+                src.transfer_callback(FakeTransfer(rng, t, ch, r))
+                r.ev('usbsrc_transfers')
+            else:
+                src.splitters[t].feed(ch)
             fed[t] += len(ch)
             r.ev('usb_chunks')
             if rng.random() < 0.5:
@@ -1070,6 +1161,11 @@ class Server:
                 rd, wr = await wall(asyncio.open_connection(*self.addr), 'connect')
             else:
                 rd, wr = await wall(asyncio.open_unix_connection(self.addr), 'connect')
+            if style == 'reset-unread':
+                # the client will go away with bytes from the server still unread in its socket: the
+                # server then sees ECONNRESET (connection_lost(error), no EOF) even on AF_UNIX, where
+                # a plain abort is an orderly EOF
+                wr.transport.pause_reading()
             pieces = H.split_at(data, sorted(rng.randint(0, len(data)) for _ in range(rng.choice([0, 0, 1, 2]))))
             for pc in pieces:
                 if pc:
@@ -1077,7 +1173,16 @@ class Server:
                     await wall(wr.drain(), 'drain')
                     if rng.random() < 0.5:
                         await asyncio.sleep(0)
-            if style == 'half-close':
+            if style == 'reset-unread':
+                await wait_tap(start + len(data), f'{self.kind} client bytes before reset')
+                for _ in range(3):
+                    await asyncio.sleep(0)      # connection_made has run on the server side
+                self.transport.sink.on_packet(bytes([4, 0x0e, 4, 1, 3, 0x0c, 0]))
+                for _ in range(3):
+                    await asyncio.sleep(0)
+                wr.transport.abort()
+                TAP['resets'] = TAP.get('resets', 0) + 1
+            elif style == 'half-close':
                 wr.write_eof()
                 # the server answers EOF by closing: reading EOF here means it has processed
                 # every byte we sent and our end-of-stream
@@ -1148,6 +1253,8 @@ async def server_pair(r: R, kind, rng, s1: Stream, cut, styles, s2: Stream, s3=N
         TAP['raised'] = None
         for idx, (s, c, style) in enumerate(clients):
             await srv.client(s.data[:c], style, rng)
+            if TAP.get('resets'):
+                r.ev('server_clients_reset_with_unread_data', TAP.pop('resets'))
             if TAP['raised'] is not None:
                 r.ev('oracle_evals')
                 key = (f'server/{kind}/first-client-misframed' if idx == 0 else
@@ -1199,7 +1306,7 @@ async def server_case_async(case, r: R):
                         'cut_positions': len(s1.data) + 1, 'client2': s2.desc}
         else:
             s3 = short_stream(rng)
-            styles_all = ('half-close', 'close', 'abort') if kind != 'ws' else ('close', 'abort')
+            styles_all = ('half-close', 'close', 'abort', 'reset-unread') if kind != 'ws' else ('close', 'abort')
             n = 0
             for _ in range(20):
                 c1 = rng.randint(0, len(s1.data))
